@@ -259,9 +259,24 @@ def setup(ctx):
 
 
 # ---------------------------------------------------------------- object pool
+_USER_CLASSES = {}
+
+
+def user_class(base, r):
+    """A class the user derives from one of the library's timed classes - defined now, that is: after queries through its
+    ancestors have already run in this process (a new one every few calls)."""
+    k = _USER_CLASSES.get(base)
+    if k is None or r.random() < 0.3:
+        k = type(f"User{base.__name__}{len(_USER_CLASSES)}_{r.randrange(10**6)}", (base,), {})
+        _USER_CLASSES[base] = k
+    return k
+
+
 def object_factories():
     import partitura.score as S
     return [
+        ("UserNote", lambda r: user_class(S.Note, r)(r.choice("CDEFGAB"), r.randint(1, 7), None, id=f"u{r.randrange(10**6)}")),
+        ("UserDirection", lambda r: user_class(S.ConstantLoudnessDirection, r)("mf")),
         ("Note", lambda r: S.Note(r.choice("CDEFGAB"), r.randint(1, 7), r.choice([None, 0, 1, -1]), id=f"n{r.randrange(10**6)}")),
         ("GraceNote", lambda r: S.GraceNote("grace", r.choice("CDEFGAB"), 4)),
         ("Rest", lambda r: S.Rest()),
